@@ -588,16 +588,27 @@ def normalise_negated_tests(tree):
                 values=[neg(v) for v in t.values]), t)
         return ast.copy_location(ast.UnaryOp(op=ast.Not(), operand=t), t)
     for node in ast.walk(tree):
-        # `if c: pass else: B`  ->  `if not c: B`
-        if isinstance(node, ast.If) and node.orelse and \
-                all(isinstance(s, ast.Pass) for s in node.body):
-            node.test = neg(node.test)
-            node.body, node.orelse = node.orelse, []
-            n += 1
-        while isinstance(node, ast.If) and node.orelse and \
-                isinstance(node.test, ast.UnaryOp) and isinstance(node.test.op, ast.Not):
-            node.test = node.test.operand
-            node.body, node.orelse = node.orelse, node.body
+        for _ in range(4):
+            changed = False
+            # `if c: A else: pass`  ->  `if c: A`
+            if isinstance(node, ast.If) and node.orelse and node.body and \
+                    all(isinstance(s, ast.Pass) for s in node.orelse) and \
+                    not all(isinstance(s, ast.Pass) for s in node.body):
+                node.orelse = []
+                changed = True
+            # `if c: pass else: B`  ->  `if not c: B`
+            if isinstance(node, ast.If) and node.orelse and \
+                    all(isinstance(s, ast.Pass) for s in node.body):
+                node.test = neg(node.test)
+                node.body, node.orelse = node.orelse, []
+                changed = True
+            while isinstance(node, ast.If) and node.orelse and \
+                    isinstance(node.test, ast.UnaryOp) and isinstance(node.test.op, ast.Not):
+                node.test = node.test.operand
+                node.body, node.orelse = node.orelse, node.body
+                changed = True
+            if not changed:
+                break
             n += 1
         while isinstance(node, ast.IfExp) and isinstance(node.test, ast.UnaryOp) and \
                 isinstance(node.test.op, ast.Not):
